@@ -646,6 +646,12 @@ impl Decryptor {
         }
     }
 
+    /// H4: snapshot of the cached secret key powers.
+    #[cfg(feature = "verif-hooks")]
+    pub fn verif_secret_key_array(&self) -> Vec<u64> {
+        self.secret_key_array.read().unwrap().clone()
+    }
+
     fn compute_secret_key_array(&self, max_power: usize) {
         let context_data = self.context.key_context_data().unwrap();
         let parms = context_data.parms();
@@ -653,6 +659,8 @@ impl Decryptor {
         let coeff_modulus_size = coeff_modulus.len();
         let coeff_count = parms.poly_modulus_degree();
 
+        #[cfg(feature = "verif-hooks")]
+        crate::verif_hooks::yield_point("dec.csk.enter");
         // Aquire read lock
         let read_lock = self.secret_key_array.read().unwrap();
         assert!(read_lock.len() % (coeff_count * coeff_modulus_size) == 0);
@@ -671,6 +679,8 @@ impl Decryptor {
         secret_key_array[..old_size * poly_size].copy_from_slice(&read_lock[..old_size * poly_size]);
         // Drop lock
         drop(read_lock);
+        #[cfg(feature = "verif-hooks")]
+        crate::verif_hooks::yield_point("dec.csk.copied");
         
         // Since all of the key powers in secret_key_array_ are already NTT transformed, to get the next one we simply
         // need to compute a dyadic product of the last one with the first one [which is equal to NTT(secret_key_)].
@@ -686,6 +696,8 @@ impl Decryptor {
             }
         }
 
+        #[cfg(feature = "verif-hooks")]
+        crate::verif_hooks::yield_point("dec.csk.computed");
         // Aquire write lock
         let mut write_lock = self.secret_key_array.write().unwrap();
 
@@ -718,6 +730,8 @@ impl Decryptor {
 
         // Make sure we have enough secret key powers computed
         self.compute_secret_key_array(encrypted_size - 1);
+        #[cfg(feature = "verif-hooks")]
+        crate::verif_hooks::yield_point("dec.dot.after_csk");
 
         let secret_key_array_binding = self.secret_key_array.read().unwrap();
         let secret_key_array = secret_key_array_binding.as_ref();
